@@ -310,6 +310,8 @@ func genUciLines(t *rapid.T, maxLines int) uciLinesCase {
 				"setoption", "setoption name", "setoption name Hash", "setoption name Hash value", "setoption name Hash value -5", "setoption name Hash value abc", "setoption value 3",
 				"setoption name Foo value 1", "setoption name Use_Hash value maybe", "setoption name Clear Hash", "setoption name Print Config", "setoption name Use_Hash value false",
 				"perft 1", "perft x", "perft 2 1", "isready isready", "stop stop", " isready", "\tgo depth 1", "uci\x00", "\x00", "go\x00depth 2", "é", "position startpos moves é2é4",
+				// lines of white space only, of every kind a tokenizer may or may not treat as a separator
+				" ", "   ", "\t", " \t ", "\v", "\f", "\r", "\u00a0", "\u0085", "\u2003", "\u3000 \u00a0", "\u2028", "go\u2003depth 1", "\u00a0 \u00a0",
 				strings.Repeat("go ", 50), "GO DEPTH 2", "Position startpos", "ucinewgame ucinewgame",
 			}).Draw(t, "hostile")
 		case 8: // mutate a valid line: delete / duplicate / replace a token
